@@ -29,7 +29,7 @@ def gen_text(rng, big):
     ni = rng.randint(1, 5)
     ng = rng.randint(1, 9 if not big else 16)
     nd = rng.choice([0, 0, 1, 2, 3])
-    pool_names = rng.choice([["n", "G", "x_"], ["N", "g", "w"], ["a", "b", "c"]])
+    pool_names = rng.choice([["n", "G", "x_"], ["N", "g", "w"], ["a", "b", "c"], ["_n", "g$", "_"], ["I_", "_G", "q$"]])
     ins = [f"{pool_names[0]}{i}" for i in range(ni)]
     qs = [f"{pool_names[2]}q{i}" for i in range(nd)]
     avail = ins + qs  # DFF outputs may be used before their DFF line appears
@@ -97,6 +97,12 @@ def gen(rng, ctx):
         return case
     ni = rng.randint(1, 5)
     cd = G.rand_circuit(rng, ni, rng.randint(1, 9 if not big else 15), max_fanin=4, p_const=rng.choice([0.0, 0.5, 0.9]), p_input_output=0.15, p_const_output=0.3, allow_x=rng.random() < 0.03)
+    if rng.random() < 0.25:
+        names = [n for n, _, _ in cd["nodes"]]
+        try:
+            cd = G.cd_rename(cd, {v: rng.choice(["_" + v, v + "$", v + "_", v.upper()]) for v in rng.sample(names, min(len(names), rng.randint(1, 3)))})
+        except ValueError:
+            pass
     return {"op": "write", "c": cd}
 
 
